@@ -211,7 +211,8 @@ class Pipelines(Harness):
                  "GenomicArrayNode.get_data/sum", "computation_graph.StreamNode/ComputationNode/ReductionNode/compute",
                  "groupby/join_groupbys")
     bounds = {"quick": "genomes of 2-3 chromosomes (sizes 2-3); 3 sorted intervals with a concrete chromosome assignment (incl. chromosomes "
-                       "without entries, also the last one) and symbolic coordinates; ALL 4 chunkings; pileup and mask records, sum",
+                       "without entries, also the last one) and symbolic coordinates; ALL 4 chunkings; pileup and mask records, sum; values of a streamed 2-record track under 2 streamed stranded "
+                       "windows (strand symbols + - .) == the in-memory evaluation, for every cut of track and windows",
               "thorough": "4 intervals, all 8 chunkings"}
 
     def skeletons(self, tier, seed):
@@ -225,10 +226,22 @@ class Pipelines(Harness):
                 for ch in chunkings(n):
                     for what in ("pileup", "mask"):
                         out.append(dict(genome=g, chroms=chroms, chunks=ch, what=what))
+        # values of a streamed track under streamed stranded windows (all three strand symbols) == the in-memory evaluation
+        whole, split = [[0, 2]], [[0, 1], [1, 2]]
+        combos = [(whole, split, [0, 1]), (split, whole, [0, 1]), (split, split, [0, 1]), (split, split, [1, 1])]
+        if tier == "thorough":
+            combos += [(w, t, c) for w in (whole, split) for t in (whole, split) for c in ([0, 0], [1, 1], [0, 1]) if (w, t, c) not in combos]
+        for wch, tch, wc in combos:
+            out.append(dict(genome="g2", chroms=wc, chunks=wch, track_chunks=tch, what="values"))
         return out
 
     def inputs(self, skel, V):
         sizes = list(GENOMES[skel["genome"]].values())
+        if skel["what"] == "values":
+            from checks.C09 import declare_track
+            declare_track(V, [0, 1], sizes, "a")
+            for i in range(len(skel["chroms"])):
+                V.int(f"st{i}", 0, 2)           # StrandEncoding code of + - .
         prev = None
         for i, c in enumerate(skel["chroms"]):
             s = V.int(f"s{i}", 0, sizes[c] - 1); e = V.int(f"e{i}", 1, sizes[c])
@@ -255,6 +268,22 @@ class Pipelines(Harness):
             if with_value:
                 r["value"] = ctx.lst(d.value)
             return r
+        if skel["what"] == "values":
+            import bionumpy as bnp
+            from bionumpy.datatypes import BedGraph, StrandedInterval
+            from bionumpy.encoded_array import EncodedArray
+            from bionumpy.encodings import StrandEncoding
+            g = bnp.Genome.from_dict(dict(genome))
+            bg = lambda a, b: BedGraph([names[c] for c in [0, 1][a:b]], ctx.arr([x[f"as{i}"] for i in range(a, b)], "int64"),
+                                       ctx.arr([x[f"ae{i}"] for i in range(a, b)], "int64"), ctx.arr([x[f"av{i}"] for i in range(a, b)], "int64"))
+            win = lambda a, b: StrandedInterval([names[c] for c in skel["chroms"][a:b]], ctx.arr([x[f"s{i}"] for i in range(a, b)], "int64"),
+                                                ctx.arr([x[f"e{i}"] for i in range(a, b)], "int64"),
+                                                EncodedArray(ctx.arr([x[f"st{i}"] for i in range(a, b)], "uint8"), StrandEncoding))
+            track_s = g.get_track(NpDataclassStream((bg(a, b) for a, b in skel["track_chunks"]), BedGraph))
+            win_s = g.get_intervals(NpDataclassStream((win(a, b) for a, b in skel["chunks"]), StrandedInterval), stranded=True)
+            got = compute(track_s[win_s])
+            mem = g.get_track(bg(0, 2))[g.get_intervals(win(0, n), stranded=True)]
+            return dict(streamed=[ctx.lst(got[i].to_array()) for i in range(n)], memory=[ctx.lst(mem[i].to_array()) for i in range(n)])
         streamed = GenomicIntervals.from_intervals(NpDataclassStream((mk(a, b) for a, b in skel["chunks"]), Interval), context)
         if skel["what"] == "pileup":
             track = streamed.get_pileup()
@@ -281,6 +310,29 @@ class Pipelines(Harness):
             return False
         genome = GENOMES[skel["genome"]]
         names = list(genome)
+        if skel["what"] == "values":
+            from checks.C09 import dense_terms
+            dense = dense_terms(x, [0, 1], genome, "a")
+            conj = []
+            if len(out["streamed"]) != len(out["memory"]):
+                return False
+            for i, c in enumerate(skel["chroms"]):
+                a, b = out["streamed"][i], out["memory"][i]
+                if len(a) != len(b):
+                    return False
+                conj += [TI(u) == TI(v) for u, v in zip(a, b)]                      # streamed == in memory, for every strand symbol
+                col = dense[names[c]]
+                s_, e_ = x[f"s{i}"].t, x[f"e{i}"].t
+                conj.append(e_ - s_ == len(b))
+                for j in range(len(b)):
+                    fwd = z3.IntVal(0); rev = z3.IntVal(0)
+                    for p in range(len(col)):
+                        fwd = z3.If(s_ + j == p, col[p], fwd)
+                        rev = z3.If(e_ - 1 - j == p, col[p], rev)
+                    # the definition for the two proper strands ('.' carries no direction: only the equality above is required)
+                    conj.append(z3.Implies(x[f"st{i}"].t == 0, TI(b[j]) == fwd))
+                    conj.append(z3.Implies(x[f"st{i}"].t == 1, TI(b[j]) == rev))
+            return z_and(conj)
         r = out["records"]
         m = len(r["start"])
         order = [names.index(c) for c in r["chrom"]]
@@ -317,6 +369,20 @@ class Pipelines(Harness):
             return f"raised {cout}"
         genome = GENOMES[skel["genome"]]
         names = list(genome)
+        if skel["what"] == "values":
+            from checks.C09 import dense_py
+            dense = dense_py(cx, [0, 1], genome, "a")
+            wins = [(names[c], cx[f"s{i}"], cx[f"e{i}"], "+-."[cx[f"st{i}"]]) for i, c in enumerate(skel["chroms"])]
+            sm = [[int(v) for v in r] for r in cout["streamed"]]
+            mm = [[int(v) for v in r] for r in cout["memory"]]
+            if sm != mm:
+                return (f"values of the track {dense} under stranded windows {wins}: streamed (track cut {skel['track_chunks']}, windows cut {skel['chunks']}) {sm}, "
+                        f"in memory {mm}")
+            for (nm, s_, e_, st), row in zip(wins, mm):
+                exp = dense[nm][s_:e_] if st == "+" else (dense[nm][s_:e_][::-1] if st == "-" else None)
+                if exp is not None and row != exp:
+                    return f"values of the track {dense} under window {(nm, s_, e_, st)}: {row}, expected {exp}"
+            return None
         iv = [(names[c], cx[f"s{i}"], cx[f"e{i}"]) for i, c in enumerate(skel["chroms"])]
         r = cout["records"]
         got = {nm: [None] * genome[nm] for nm in names}
